@@ -18,7 +18,7 @@ import (
 func init() { register("C19", checkC19) }
 
 func checkC19(c *core.Ctx) {
-	c.Explainf("C19 (decided clauses: ordering and error discipline of the two main packages; crash points such as power loss between write and rename are NOT decided). R1: no call that truncates a file (os.Create, os.WriteFile, os.OpenFile with O_TRUNC) is applied to the user's target: the only accepted way to replace the -o file or the file being formatted is to write a temporary created with os.CreateTemp and os.Rename it over the target once every fallible step (parse, generate, format, write, close) has succeeded; every function that renames must remove its temporary on its failing paths. R2: the errors of Write/Close on the temporary are returned, none is dropped or deferred away. R3 (typed, not by variable name): main calls os.Exit with a non-zero constant exactly on the arm where the error returned by run() is not nil; in every function of the main packages that returns an error, each `if v != nil` arm over an error variable ends in a return of a non-nil error, or records the failure in a variable that is written only inside such arms and is turned into an error return later (the accumulating idiom) — an error that is printed and then overwritten by the next file is reported as swallowed. R4 (reported as a fact): whether bebopfmt re-parses its output before replacing the file. R5: the formatter's sibling-agreement rules of C16 (the third sentence of the property rests on them). R6: the buffer collecting the formatted text is fresh storage, not a re-slice of the input.")
+	c.Explainf("C19 (decided clauses: ordering and error discipline of the two main packages; crash points such as power loss between write and rename are NOT decided). R1: no call that truncates a file (os.Create, os.WriteFile, os.OpenFile with O_TRUNC) is applied to the user's target: the only accepted way to replace the -o file or the file being formatted is to write a temporary created with os.CreateTemp and os.Rename it over the target once every fallible step (parse, generate, format, write, close) has succeeded; every function that renames must remove its temporary on its failing paths. R2: the errors of Write/Close on the temporary are returned, none is dropped or deferred away. R3 (typed, not by variable name): main calls os.Exit with a non-zero constant exactly on the arm where the error returned by run() is not nil; in every function of the main packages that returns an error, each `if v != nil` arm over an error variable ends in a return of a non-nil error, or records the failure in a variable that is written only inside such arms and is turned into an error return later (the accumulating idiom) — an error that is printed and then overwritten by the next file is reported as swallowed. R4 (reported as a fact): whether bebopfmt re-parses its output before replacing the file. R5: the formatter's sibling-agreement rules of C16 (the third sentence of the property rests on them). R6: the buffer collecting the formatted text is fresh storage, not a re-slice of the input. R6b: what (*bytes.Buffer).Bytes() returns in the main packages is used at once (a call argument); it is not kept in a composite literal, field, element or package-level variable while it is a view of a buffer that lives on or is reset for re-use.")
 	p := loadRepo(c)
 	if p == nil {
 		return
@@ -227,6 +227,133 @@ func checkC19(c *core.Ctx) {
 			})
 		}
 	}
+	// R6b: what (*bytes.Buffer).Bytes() returns is a view of the buffer. Handing
+	// it to a call is using it now; keeping it (in a composite literal, a field,
+	// an element, a package-level variable) while the same buffer is reset or
+	// written again — a shared or re-used buffer — makes the kept text change
+	// under the keeper: the file written later is not the file formatted.
+	nBytes := 0
+	for _, pk := range p.All {
+		if !strings.HasPrefix(pk.PkgPath, load.Mod+"/main/") {
+			continue
+		}
+		info := pk.TypesInfo
+		var fds []*ast.FuncDecl
+		for fn, fd := range p.AllDecls() {
+			if p.Owner(fn) == pk && fd.Body != nil {
+				fds = append(fds, fd)
+			}
+		}
+		sort.Slice(fds, func(i, j int) bool { return fds[i].Pos() < fds[j].Pos() })
+		for _, fd := range fds {
+			var stack []ast.Node
+			ast.Inspect(fd.Body, func(n ast.Node) bool {
+				if n == nil {
+					stack = stack[:len(stack)-1]
+					return true
+				}
+				stack = append(stack, n)
+				call, ok := n.(*ast.CallExpr)
+				if !ok || len(call.Args) != 0 {
+					return true
+				}
+				callee := load.Callee(info, call)
+				if callee == nil || callee.Name() != "Bytes" || callee.Pkg() == nil || callee.Pkg().Path() != "bytes" {
+					return true
+				}
+				sel, ok := ast.Unparen(call.Fun).(*ast.SelectorExpr)
+				if !ok {
+					return true
+				}
+				nBytes++
+				// is the buffer one that lives on, or is used again, after this?
+				shared := ""
+				root := ast.Unparen(sel.X)
+				if id, ok := root.(*ast.Ident); ok {
+					o := info.ObjectOf(id)
+					if v, isVar := o.(*types.Var); isVar {
+						switch {
+						case v.Parent() == pk.Types.Scope():
+							shared = "the package-level buffer " + v.Name()
+						case isParamOf(info, fd, v):
+							shared = "the caller's buffer " + v.Name()
+						default:
+							ast.Inspect(fd.Body, func(k ast.Node) bool {
+								switch y := k.(type) {
+								case *ast.AssignStmt:
+									for i, l := range y.Lhs {
+										if lid, ok := ast.Unparen(l).(*ast.Ident); ok && info.ObjectOf(lid) == o && i < len(y.Rhs) {
+											r := ast.Unparen(y.Rhs[i])
+											if u, isU := r.(*ast.UnaryExpr); isU && u.Op == token.AND {
+												r = ast.Unparen(u.X)
+											}
+											if rid, ok := r.(*ast.Ident); ok {
+												if rv, ok := info.ObjectOf(rid).(*types.Var); ok && rv.Parent() == pk.Types.Scope() {
+													shared = "the package-level buffer " + rv.Name()
+												}
+											}
+										}
+									}
+								case *ast.CallExpr:
+									if s2, ok := ast.Unparen(y.Fun).(*ast.SelectorExpr); ok && (s2.Sel.Name == "Reset" || s2.Sel.Name == "Truncate") {
+										if rid, ok := ast.Unparen(s2.X).(*ast.Ident); ok && info.ObjectOf(rid) == o && shared == "" {
+											shared = "the buffer " + v.Name() + ", which this function resets for re-use"
+										}
+									}
+								}
+								return true
+							})
+						}
+					}
+				} else {
+					shared = "the buffer " + wire.Canon(root)
+				}
+				// how the view is used
+				kept := ""
+				i := len(stack) - 2
+				var child ast.Node = call
+				for i >= 0 {
+					if pe, ok := stack[i].(*ast.ParenExpr); ok {
+						child = pe
+						i--
+						continue
+					}
+					break
+				}
+				if i >= 0 {
+					switch par := stack[i].(type) {
+					case *ast.KeyValueExpr, *ast.CompositeLit:
+						kept = "put into a composite literal"
+					case *ast.AssignStmt:
+						for k, r := range par.Rhs {
+							if r == child && k < len(par.Lhs) {
+								switch l := ast.Unparen(par.Lhs[k]).(type) {
+								case *ast.SelectorExpr, *ast.IndexExpr, *ast.StarExpr:
+									kept = "stored in " + wire.Canon(l)
+								case *ast.Ident:
+									if v, ok := info.ObjectOf(l).(*types.Var); ok && v.Parent() == pk.Types.Scope() {
+										kept = "stored in the package-level " + l.Name
+									}
+								}
+							}
+						}
+					case *ast.CallExpr:
+						if wire.Canon(par.Fun) == "append" && !(par.Ellipsis.IsValid() && par.Args[len(par.Args)-1] == child) && par.Args[0] != child {
+							kept = "appended as an element"
+						}
+					}
+				}
+				key := "the text taken from the output buffer in " + fd.Name.Name + " is used before the buffer changes"
+				if kept != "" && shared != "" {
+					c.Check("R6b", key, p.Pos(call.Pos()), false, wire.Canon(call)+" is "+kept+" while it is a view of "+shared+": the next file formatted into that buffer overwrites the text kept for this one, and the file written later is not the file that was formatted")
+				} else {
+					c.Check("R6b", key, p.Pos(call.Pos()), true, "")
+				}
+				return true
+			})
+		}
+	}
+	c.Count("buffer_views_taken", nBytes)
 	// R4 fact
 	if pk := p.Pkgs[load.Mod+"/main/bebopfmt"]; pk != nil {
 		if fd := p.FuncDecl(pk, "formatFile"); fd != nil {
